@@ -527,9 +527,14 @@ func (c *diskCache) availableOrTryProxy(kind cache.EntryKind, hash string, size 
 					// Race condition, was the item replaced after we released the lock?
 					log.Printf("Warning: expected %s to on disk to have size %d, found %d",
 						blobPath, size, foundSize)
+					_ = f.Close()
 				} else {
 					_, err = f.Seek(offset, io.SeekStart)
-					return f, foundSize, false, err
+					if err != nil {
+						_ = f.Close()
+						return nil, -1, false, err
+					}
+					return f, foundSize, false, nil
 				}
 			}
 		}
@@ -725,6 +730,7 @@ func (c *diskCache) get(ctx context.Context, kind cache.EntryKind, hash string, 
 		if offset > 0 {
 			_, err = rcf.Seek(offset, io.SeekStart)
 			if err != nil {
+				_ = rcf.Close()
 				return nil, -1, internalErr(err)
 			}
 		}
